@@ -46,6 +46,21 @@ Theorem C17_reload_same :
 Proof. exact reload_same. Qed.
 Print Assumptions C17_reload_same.
 
+(* a failed operation (and locking, unlocking, reloading) leaves the derivation
+   state unchanged: any history gives the wallet of its effective operations alone,
+   to which C17_batch_independent applies *)
+Theorem C17_inert_ops_same :
+  forall (S K : Type) (step : S -> S * K) (ops : list (dop K)) (w : dwallet S K),
+    d_run S K step (filter d_effective ops) w = d_run S K step ops w.
+Proof. exact inert_ops_same. Qed.
+Print Assumptions C17_inert_ops_same.
+
+Theorem C17_inert_ops_same_idx :
+  forall (K : Type) (child : nat -> nat -> K) (ops : list (iop K)) (w : iwallet K),
+    i_run K child (filter i_effective ops) w = i_run K child ops w.
+Proof. exact inert_ops_same_idx. Qed.
+Print Assumptions C17_inert_ops_same_idx.
+
 Theorem C17_new_wallet_prefix :
   forall (S K : Type) (step : S -> S * K) (s : S) (gen_n scan_n : nat) (act : K -> bool),
     exists total, d_entries (d_new S K step s gen_n scan_n act) = derive_all S K step s total /\ gen_n <= total.
